@@ -26,8 +26,23 @@ class World:
         app, orch, sb = self.app, self.app.orchestrator, self.app.state_backend
         real = orch._atomic_status_transition
         lock = threading.Lock()
+        self._seq: dict[int, int] = {}       # position in tlog -> commit sequence number (in-memory backend)
+        tl = threading.local()
+        if kind == "mem" and hasattr(orch, "_interanl_atomic_status_transition"):
+            # the in-memory write happens inside the per-invocation lock: number the writes there, so that the order of
+            # the log is the commit order even when the caller is pre-empted between the write and its return
+            import itertools
+            counter = itertools.count()
+            inner = orch._interanl_atomic_status_transition
+
+            def numbered(*a, **k):
+                r = inner(*a, **k)
+                tl.seq = next(counter)
+                return r
+            orch._interanl_atomic_status_transition = numbered
 
         def logged(invocation_id, status, runner_id=None):
+            tl.seq = None
             try:
                 rec = real(invocation_id, status, runner_id)
             except BaseException as ex:  # noqa: BLE001
@@ -35,6 +50,8 @@ class World:
                     self.tlog.append((invocation_id, status.name, runner_id, False, type(ex).__name__))
                 raise
             with lock:
+                if getattr(tl, "seq", None) is not None:
+                    self._seq[len(self.tlog)] = tl.seq
                 self.tlog.append((invocation_id, status.name, runner_id, True, rec.runner_id))
             return rec
         orch._atomic_status_transition = logged
@@ -73,7 +90,10 @@ class World:
             return [x[0] for x in conn.execute(f"SELECT invocation_id FROM {b.tables.QUEUE} ORDER BY created_at, id").fetchall()]
 
     def successes(self, inv_id) -> list[tuple]:
-        return [(s, req, own) for (i, s, req, ok, own) in self.tlog if i == inv_id and ok]
+        rows = [(self._seq.get(pos, pos), pos, s, req, own) for pos, (i, s, req, ok, own) in enumerate(self.tlog) if i == inv_id and ok]
+        if all(pos in self._seq for (_, pos, _, _, _) in rows):
+            rows.sort()                      # commit order
+        return [(s, req, own) for (_, _, s, req, own) in rows]
 
     # ---- actor bodies
     def poller(self, runner_id: str, n: int, out: list):
